@@ -17,7 +17,7 @@ for S in $SEEDS; do
   : > /verif/seeded/$S/result.txt
   for Q in $PROPS; do
     if ! echo " $CLAIMED " | grep -q " $Q "; then echo "$S vs $Q: not claimed" | tee -a /verif/seeded/$S/result.txt; continue; fi
-    OUT=$(VERIF_REPO=$SR VERIF_DIR=$SV /verif/govc/govc check $Q --tier quick 2>&1); RC=$?
+    OUT=$(VERIF_REPO=$SR VERIF_DIR=$SV ${GOVC_BIN:-/verif/govc/govc} check $Q --tier quick 2>&1); RC=$?
     echo "$S vs $Q: exit=$RC" | tee -a /verif/seeded/$S/result.txt
     echo "$OUT" | grep -E "^(VIOLATION|UNBOUND|KNOWN|ERROR|UNDECIDED)" | cut -c1-300 | head -5 | tee -a /verif/seeded/$S/result.txt
   done
